@@ -116,3 +116,16 @@ if __name__ == "__main__":
         sys.exit(0 if verify(sys.argv[2], sys.argv[3], sys.argv[4], wt) else 1)
     elif sys.argv[1] == "run":
         sys.exit(run(sys.argv[2], sys.argv[3:]))
+    elif sys.argv[1] == "runall":
+        # regression over every kept change: each against the check of the property it breaks
+        rows = []
+        for name in sorted(os.listdir(SEEDED)):
+            if not os.path.exists(os.path.join(SEEDED, name, "meta.json")):
+                continue
+            run(name, [])
+            meta = json.load(open(os.path.join(SEEDED, name, "meta.json")))
+            res = meta["checks"].get(meta["breaks"], {})
+            rows.append((name, meta["breaks"], res.get("exit"), res.get("violations")))
+        print("\n== summary")
+        for r in rows:
+            print("%-10s %-4s exit=%s violations=%s %s" % (r[0], r[1], r[2], r[3], "" if r[2] == 1 else "  <-- NOT DETECTED"))
